@@ -20,6 +20,8 @@ struct Verdicts {
 
 // relevance counters and distinct-shape hashes are accumulated into res
 void monitor_all(const Run& run, Verdicts& v, vu::Result& res);
+// only the packet-identifier / quota and completion monitors (for very large scenarios)
+void monitor_ids_only(const Run& run, Verdicts& v, vu::Result& res);
 // engine-level observations that are alarms for every property that uses the simulator (exception, hang, assertion)
 void monitor_engine(const Run& run, Verdicts& v, vu::Result& res);
 uint64_t trace_shape(const Run& run);
